@@ -257,7 +257,7 @@ def _p_values(gamma, B_cdfs, rr_inv, T_lens, iq, nq, offset, results):
 				if score == results[i, 1] and results[i, 2] >= overlap:
 					continue
 
-				results[i, 0] = B_cdfs[nt, uint64(score-1)]
+				results[i, 0] = B_cdfs[nt, uint64(score-1)] if score > 0 else 1.0
 				results[i, 1] = score
 				results[i, 2] = k - nq + 1
 				results[i, 3] = overlap
